@@ -29,7 +29,7 @@ func genC04(rng *rand.Rand, c *Case) {
 	peers := 1 + rng.Intn(6)
 	for i := 0; i < peers; i++ {
 		// N: [handshake variant, credential variant, account index, first transaction type variant, tail length, seed, delay, banned]
-		c.Ops = append(c.Ops, Op{C: i, K: "peer", N: []int{rng.Intn(8), rng.Intn(9), rng.Intn(3), rng.Intn(4), rng.Intn(6), rng.Intn(1 << 30), rng.Intn(80), rng.Intn(8) / 7}})
+		c.Ops = append(c.Ops, Op{C: i, K: "peer", N: []int{rng.Intn(8), rng.Intn(10), rng.Intn(3), rng.Intn(4), rng.Intn(6), rng.Intn(1 << 30), rng.Intn(80), rng.Intn(8) / 7}})
 	}
 }
 
@@ -66,6 +66,10 @@ func runC04(w *World) {
 		w.AddAccount(a.Login, "Name of "+a.Login, a.Pw, all)
 	}
 	w.AddAccount("observer", "Observer", "obs", all)
+	// account databases also contain accounts whose stored hash is unusable (hand-edited file, empty Password,
+	// a hash damaged in transit): such an account has no password that matches, nobody may log in with it
+	broken := []string{"", "plaintext-password", "$2a$04$tooshort", "$9z$04$6Yq/TIlgjSD.FbARwtYs9ODnkHawonu1TJ5W2jJKfhnHwBIQTk./y"}[cfg["acctseed"]%4]
+	w.WriteFile("Users/broken.yaml", rp.AccountYAML("broken", "Broken", broken, all, ""))
 	must(os.WriteFile(filepath.Join(w.FileRoot, "victim.txt"), []byte("do not delete"), 0644))
 	w.WriteFile("Banlist.yaml", "\"10.77.0.99\": null\n")
 	si := w.StartServer()
@@ -196,6 +200,11 @@ func runC04(w *World) {
 				}
 			case 7:
 				login, match = login+"x", false
+			case 9:
+				login, match = "broken", false
+				if rng.Intn(2) == 0 {
+					pw = ""
+				}
 			case 8:
 				if len(pw) < 72 { // beyond 72 bytes bcrypt ignores the rest: outside the property's quantifier
 					pw, match = pw+"\x00", false
